@@ -1493,6 +1493,45 @@ def window_class(w) -> str:
 # ---------------------------------------------------------------------------
 
 
+def nonfinite_rows(ctx, yaw, seed: int) -> None:
+    """Value classes the position model (RandomGenAttrs) does not distinguish: tables whose rows hold NaN / inf in the weight
+    at row a and in the redshift at another row b (every pair a != b, the same number of non-finite entries in both
+    columns).  Predicate as in attr_check: every drawn (weight, redshift) pair is a row of the tables BY POSITION (NaN equals
+    NaN); a constructor that refuses non-finite samples with an exception is an admissible refusal, not a violation."""
+    from yaw.randoms import BoxRandoms
+
+    n, M = 4, 64
+    done = 0
+    for a in range(n):
+        for b in range(n):
+            if a == b:
+                continue
+            for bad_w, bad_z in ((np.nan, np.nan), (np.nan, np.inf), (np.inf, np.nan)):
+                w = np.arange(1.0, n + 1.0)
+                z = 0.1 * np.arange(1.0, n + 1.0)
+                w[a], z[b] = bad_w, bad_z
+                rows = {(repr(float(x)), repr(float(y))) for x, y in zip(w, z)}
+                detail = dict(weights=[repr(float(x)) for x in w], redshifts=[repr(float(x)) for x in z], n=M)
+                try:
+                    gen = BoxRandoms(10, 12, -1, 1, weights=w.copy(), redshifts=z.copy(), seed=[0, 7, 12345][(a + b + seed) % 3])
+                except Exception:  # noqa: BLE001 - refused
+                    continue
+                try:
+                    arr = gen(M)
+                except Exception as exc:  # noqa: BLE001
+                    ctx.violation(f"C16|BoxRandoms.__call__|samples_with_non_finite_rows|raises_{type(exc).__name__}", dict(detail, error=repr(exc)))
+                    continue
+                done += 1
+                ctx.evaluated(1, ("nonfinite", a, b, repr(bad_w), repr(bad_z)))
+                pairs = [(repr(float(x)), repr(float(y))) for x, y in zip(arr["weights"], arr["redshifts"])]
+                if len(arr) != M:
+                    ctx.violation("C16|BoxRandoms.__call__|samples_with_non_finite_rows|size_differs", dict(detail, got=len(arr)))
+                elif any(p not in rows for p in pairs):
+                    ctx.violation("C16|BoxRandoms.__call__|samples_with_non_finite_rows|attributes_not_joint",
+                                  dict(detail, first_pair_that_is_no_row=next(p for p in pairs if p not in rows)))
+    ctx.extra["non_finite_attribute_rows"] = dict(tables_evaluated=done, rows=n, points_per_table=M)
+
+
 def attr_check(ctx, yaw, worlds, seed: int) -> None:
     """TLC enumerates (container of the weights, container of the redshifts, index labels, drawn index) with the positions
     of the tables the two lookups weights[idx] / redshifts[idx] hit; every case is evaluated on the real BoxRandoms and
@@ -1592,6 +1631,7 @@ def attr_check(ctx, yaw, worlds, seed: int) -> None:
                 (ctx.violation if kind_ == "violation" else ctx.drift)(key, detail)
         ctx.validated(1)
     ctx.extra["attribute_containers"] = summary
+    nonfinite_rows(ctx, yaw, seed)
     # the deviations' counterexamples on the real code
     shown = {}
     for label, (cw, cz, ix) in cexs.items():
